@@ -70,11 +70,19 @@ def check_case(ctx, cs):
         ctx.violate(site, tg + ["count"], small, {"expected": len(c), "got": len(got)})
         return
     variants = [o["res"]] + ([o["res2"]] if op == "rotate" else [])
+    tiny = op == "scale" and abs(float(fr(o["f"]))) < 1e-3
     fails = []
     for var in variants:
         bad = None
-        for g, e in zip(got, var):
-            bad = same_def(project(g), e, 1e-9)
+        for g, e, orig in zip(got, var, c):
+            if tiny:
+                # compare at the scale of the original: (result / f) against the unscaled shape (weights are not scaled)
+                fct = float(fr(o["f"]))
+                pg = project(g)
+                pg["P"] = [[x / fct for x in q[:-1]] + [q[-1]] if pg["rat"] else [x / fct for x in q] for q in pg["P"]]
+                bad = same_def(pg, orig, 1e-9)
+            else:
+                bad = same_def(project(g), e, 1e-9)
             if bad:
                 break
         fails.append(bad)
@@ -92,7 +100,12 @@ def check_case(ctx, cs):
         except Exception as ex:
             ctx.violate(site, tg + ["raises", "evalpts_after"], small, {"exception": repr(ex)[:200]})
             return
-        if not close_seq(a, [list(p) for p in tw.evalpts], 1e-9):
+        ref_pts = [list(p) for p in tw.evalpts]
+        if tiny:
+            fct = float(fr(o["f"]))
+            a = [[x / fct for x in q] for q in a]
+            ref_pts = [[x / fct for x in q] for q in ref_pts]
+        if not close_seq(a, ref_pts, 1e-9):
             ctx.violate(site, tg + ["evalpts_after"], small, {"got": a[:2], "expected": [list(p) for p in tw.evalpts][:2]})
             return
 
